@@ -95,8 +95,14 @@ class TransformationsFilter(BaseFilter):
 
     def filter(self, glyph):
         matrix = self.context.matrix
-        if matrix == Identity or not (glyph or glyph.components or glyph.anchors):
+        if matrix == Identity:
             return False  # nothing to do
+        if not (glyph or glyph.components or glyph.anchors):
+            # no outline and no anchors (a space): there are still the advances
+            width, height = glyph.width, glyph.height
+            glyph.width = matrix.transformVector((width, 0))[0]
+            glyph.height = matrix.transformVector((0, height))[1]
+            return (glyph.width, glyph.height) != (width, height)
 
         modified = self.context.modified
         glyphSet = self.context.glyphSet
